@@ -410,6 +410,8 @@ class Tracer:
                     fp = fp[len(df):]
                 else:
                     return []
+            if t.kind == "call" and t.callee == "std::ops::FromResidual::from_residual" and fp:
+                return []   # an error return carries no success payload
             ml = MAP_LIKE.get(t.callee) if t.kind == "call" else None
             if ml is not None and len(t.args) == 2:
                 res = self._map_like(bd, bb, n, t, ml, fp)
